@@ -80,6 +80,34 @@ func relDirIDPresent(w *refgraph.World) bool {
 	return found
 }
 
+// c04EmptyPathRoot: a root document (or a root schema id) located at the bare site, "http://host" with an empty path,
+// and a cyclic document elsewhere on that site: every option combination and entry point returns.
+func c04EmptyPathRoot(c *Ctx) {
+	for _, root := range []string{"http://h.example", "https://api.example"} {
+		tree := root + "/schemas/tree.json"
+		w := &refgraph.World{Root: root, Docs: map[string]wire.V{
+			root: wire.MustParse(`{"swagger":"2.0","info":{"title":"t","version":"1"},"paths":{},"definitions":{"top":{"type":"object","properties":{"t":{"$ref":` + quoteJSON(tree+"#/definitions/Node") + `},"u":{"$ref":"schemas/tree.json#/definitions/Leaf"}}}},"parameters":{"p":{"name":"b","in":"body","schema":{"$ref":` + quoteJSON(tree+"#/definitions/Node") + `}}}}`),
+			tree: wire.MustParse(`{"definitions":{"Node":{"type":"object","properties":{"next":{"$ref":"#/definitions/Node"},"leaf":{"$ref":"#/definitions/Leaf"}}},"Leaf":{"type":"string"}}}`)}}
+		for oi := 0; oi < 8; oi++ {
+			o := expOpts{Skip: oi&1 == 1, Continue: oi&2 == 2, Absolute: oi&4 == 4}
+			res := expandWorld(w, o)
+			c.Count(fmt.Sprint("empty-path-root", root, o.String()), true)
+			c.Hit("empty-path-root")
+			cs := map[string]interface{}{"world": worldJSON(w), "options": o.String(), "entry": "ExpandSpec"}
+			if res.Panic != "" || res.Hang {
+				c.Fail(Failure{Kind: "crash", Sig: "C04:panic", What: "ExpandSpec panicked or hung on a root located at the bare site: " + res.Panic, Case: cs})
+			}
+			for _, call := range []entryCall{{Entry: "schemaWithBase", Path: []string{"definitions", "top"}, Skip: o.Skip, Cont: o.Continue, Abs: o.Absolute}} {
+				r := runEntry(w, call, nil, loaderFor(w, nil, nil))
+				if r.Panic != "" || r.Hang {
+					cs2 := map[string]interface{}{"world": worldJSON(w), "call": call}
+					c.Fail(Failure{Kind: "crash", Sig: "C04:panic", What: "ExpandSchemaWithBasePath panicked or hung on a root located at the bare site: " + r.Panic, Case: cs2})
+				}
+			}
+		}
+	}
+}
+
 // c04RootForms: the root-based entry points called several times in a row with ONE cache, the root supplied in each
 // of its forms - typed document, generic JSON (a map, which Go cannot compare), the schema itself, nil: a result or
 // an error, never a panic, on every call of the sequence.
@@ -161,6 +189,7 @@ func runC04(c *Ctx) {
 	// and ExpandSchema (typed root held in the cache; schema as its own root): an error, never a panic
 	c08ContainerProbes(c)
 	c04RootForms(c)
+	c04EmptyPathRoot(c)
 	var jobs []childJob
 	defer func() { runChildJobs(c, jobs) }()
 	for i := 0; i < n; i++ {
